@@ -10,9 +10,15 @@ from harness.engines import schedmt
 
 # property -> scenario mix (name, weight, job options) and the model-checking configs that carry its invariants
 PROPS = {
-    "C01": dict(mix=[("plain", 1.0, {})], mc=["MC_base", "MC_runahead:MC_runahead_live"]),
-    "C02": dict(mix=[("plain", 0.5, {"features": {"retries": "always"}}),
-                     ("plain", 0.3, {"features": {"retries": "always"}, "mode": "any"}), ("faults", 0.2, {})], mc=["MC_retry"]),
+    "C01": dict(mix=[("plain", 0.55, {}),
+                     # the "started" message of every job arrives last (a final failure is heard first); many children
+                     # on :start, success often optional so that a failure is final
+                     ("plain", 0.45, {"features": {"started": "always", "optional": "often", "retries": False},
+                                      "mode": "complete_failfirst", "policy": {"started_last": True}})],
+                mc=["MC_base", "MC_runahead:MC_runahead_live"]),
+    "C02": dict(mix=[("plain", 0.4, {"features": {"retries": "always"}}),
+                     ("plain", 0.2, {"features": {"retries": "always"}, "mode": "any"}),
+                     ("plain", 0.2, {"features": {"retries": "always"}, "mode": "any_evict"}), ("faults", 0.2, {})], mc=["MC_retry"]),
     "C03": dict(mix=[("plain", 0.35, {}), ("plain", 0.35, {"mode": "any"}),
                      ("cmds", 0.3, {"kinds": ["reload"], "features": {"queues": "always"}, "stopreq": False})],
                 mc=["MC_base", "MC_msgs:MC_msgs_live"]),
@@ -51,8 +57,10 @@ PROPS = {
     "C32": dict(mix=[("expire", 1.0, {})], mc=[]),
     "C19": dict(mix=[("restart", 1.0, {})], mc=["MC_cmds:MC_cmds1", "MC_cmds"]),
     "C20": dict(mix=[("crash", 1.0, {})], mc=["MC_crash:MC_crash_finding!", "MC_crash"]),
-    "C31": dict(mix=[("plain", 0.6, {"features": {"sequential": "always"}}),
-                     ("warm", 0.4, {"features": {"sequential": "always"}})], mc=["MC_seq", "MC_base"]),
+    "C31": dict(mix=[("plain", 0.4, {"features": {"sequential": "always"}}),
+                     ("warm", 0.2, {"features": {"sequential": "always"}}),
+                     # sequential tasks on several recurrences, warm start in between their points
+                     ("warm", 0.4, {"features": {"sequential": "always", "recs": "many", "max_tasks": 3}})], mc=["MC_seq", "MC_base"]),
 }
 N_RUNS = {"quick": 96, "thorough": 1500}
 SLOW_MC = {"MC_queue", "MC_seq", "MC_cmds", "MC_crash"}     # > 30 s: thorough tier only
